@@ -311,9 +311,11 @@ class Image(Traversable):
     def make_export_name(self, name, is_file=True) -> str:
         export_name = self.make_safe_name(name)
         export_name = self._INVALID_FILE_NAME.sub(" ", name).strip()
-        match = self._SAFE_ENDING.match(export_name)
-        if match:
-            export_name = match.group(1)
+        # drop one trailing dot and the blanks before it (plain string 
+        # operations: the equivalent pattern "(.+?)\s*\.?\s*$" needs cubic
+        # time on a long run of blanks inside a name)
+        if len(export_name) > 1 and export_name[-1] == ".":
+            export_name = export_name[:-1].rstrip()
         if len(export_name) <= 0:
             export_name = "0"
         match = re.match(r"\w", export_name)
